@@ -164,6 +164,8 @@ def o_detect(case):
         digs = [digest([case["frame"], pos])] if nt else []
         if kind == "lower-length":
             assert len(pos) <= 3 and pos[-1] - pos[0] < 24
+        if kind == "trailer":
+            assert pos[0] >= nbits - 24
         cls = [kind] + (["zero-crc-frame"] if frame[-3:] == b"\0\0\0" else []) + ["in-header" if pos[0] < 24 else ("in-crc" if pos[-1] >= nbits - 24 else "in-payload")]
     return Res(nontrivial=nt, classes=cls, evals=evals, digests=digs if cnt is None else None, count=cnt)
 
@@ -237,7 +239,15 @@ def _frames(tier):
 def s_detect(draw, tier):
     frame = draw(_frames(tier))
     nbits = len(frame) * 8
-    kind = draw(st.sampled_from(["pair", "pair", "odd", "burst", "burst", "single", "lower-length", "lower-length"]))
+    kind = draw(st.sampled_from(["pair", "pair", "odd", "burst", "burst", "single", "lower-length", "lower-length", "trailer", "trailer"]))
+    if kind == "trailer":
+        # the whole trailer replaced by a look-alike value (all zero, all ones, CR LF ...): a burst of <= 24 bits
+        new = draw(st.one_of(st.sampled_from([b"\0\0\0", b"\xff\xff\xff", b"\x00\r\n", b"\xd3\x00\x00", b"\x00\x00\x01", b"\x80\x00\x00"]), st.binary(min_size=3, max_size=3)))
+        diff = int.from_bytes(new, "big") ^ int.from_bytes(frame[-3:], "big")
+        if diff:
+            pos = [nbits - 24 + k for k in range(24) if diff >> (23 - k) & 1]
+            return {"frame": frame.hex(), "mode": "explicit", "kind": "trailer", "positions": pos}
+        kind = "single"
     inner = inner_length_of(frame) if kind == "lower-length" else None
     if kind == "lower-length" and inner is None:
         kind = "single"
@@ -291,6 +301,18 @@ def o_valoff(case):
     RTCMReader = _lib()[0]
     frame = bytes.fromhex(case["frame"])
     crc = bytes.fromhex(case["crc"])
+    if case.get("undecodable"):
+        # a payload that does not decode: with validation off the outcome (exception class) must not depend on the trailer
+        outcomes = []
+        for tr in (frame[-3:], crc, b"\0\0\0"):
+            try:
+                RTCMReader.parse(frame[:-3] + tr, validate=0)
+                outcomes.append("ok")
+            except Exception as e:  # pylint: disable=broad-except
+                outcomes.append(type(e).__name__)
+        if len(set(outcomes)) != 1:
+            raise Fail("validate0-outcome-depends-on-trailer", f"validate=0, same payload, trailers right / {crc.hex()} / 000000 give {outcomes}")
+        return Res(nontrivial=outcomes[0] != "ok", classes=["undecodable-payload" if outcomes[0] != "ok" else "decodable-after-all"])
     good = RTCMReader.parse(frame, validate=1)
     alt = frame[:-3] + crc
     try:
@@ -311,8 +333,12 @@ def o_valoff(case):
 
 @st.composite
 def s_valoff(draw, tier):
-    frame = framing.build_frame(draw(gen.valid_payloads(tier)))
     crc = draw(st.one_of(st.binary(min_size=3, max_size=3), st.sampled_from([b"\0\0\0", b"\xff\xff\xff"])))
+    if draw(st.integers(0, 3)) == 0:
+        p = bytes.fromhex(draw(gen.any_message("small"))["payload"])
+        cut = draw(st.integers(2, max(2, len(p) - 1)))
+        return {"frame": framing.build_frame(p[:cut]).hex(), "crc": crc.hex(), "undecodable": True}
+    frame = framing.build_frame(draw(gen.valid_payloads(tier)))
     return {"frame": frame.hex(), "crc": crc.hex()}
 
 
@@ -339,7 +365,7 @@ def s_cold(draw, tier):
 
 SUBS = [
     Sub("crc_value", o_value, strategy=s_value, enum=e_value, examples=(250, 6000), rule="data length > 6", need={"len1029": 1, "len0": 1}),
-    Sub("detect_patterns", o_detect, strategy=s_detect, examples=(250, 8000), rule="frame length > 6; distinct (frame, positions)", need={"pair": 1, "odd": 1, "burst": 1, "lower-length": 1, "zero-crc-frame": 1}),
+    Sub("detect_patterns", o_detect, strategy=s_detect, examples=(250, 8000), rule="frame length > 6; distinct (frame, positions)", need={"pair": 1, "odd": 1, "burst": 1, "lower-length": 1, "zero-crc-frame": 1, "trailer": 1}),
     Sub(
         "detect_sweeps",
         o_detect,
